@@ -99,7 +99,7 @@ pub fn make_case(seed: u64, idx: u64, tier: Tier, restarts: bool) -> (Case, Rng)
     let mut r = Rng::new(seed).derive(idx.wrapping_mul(7919) + 1);
     let mut fan = 0;
     let prog = if idx % 5 == 4 {
-        let which = r.below(6);
+        let which = r.below(7);
         let scale = match which {
             // (1 = projection fan over one firewall, each projection with its own consumer: the
             // fan crosses the chunking of the backward projection, 4 x available_parallelism)
